@@ -14,13 +14,40 @@
 (*   global   : the library-wide default tss.EC() at decoding time (ECPoint   *)
 (*              JSON without "Curve" - the legacy form - and Gob, whose       *)
 (*              encoding carries coordinates only)                            *)
+(*                                                                            *)
+(* HISTORIES.  A presentation does not happen in a vacuum: the process has    *)
+(* used the door before, and three doors (UnmarshalJSON with and without a    *)
+(* curve name, GobDecode) are METHODS OF AN EXISTING OBJECT - encoding/json   *)
+(* and encoding/gob decode into a non-nil *ECPoint they find in the target    *)
+(* (a field of a struct that is reloaded, an element of a slice) instead of   *)
+(* allocating a new one.  The pre-state of a presentation is therefore a      *)
+(* dimension of the table:                                                    *)
+(*   fresh : nothing before, a new object                                     *)
+(*   seen  : the same door was used immediately before, in the same process   *)
+(*           (and, for the message doors, on the same message object):        *)
+(*           with the same pair under the other curve, or with the intact     *)
+(*           point the pair was made from under that point's own curve; for   *)
+(*           the list door also: that intact point directly before the pair   *)
+(*           in the same list                                                 *)
+(*   reuse : (receiver doors) the object decoded into was used before: it is  *)
+(*           bound to curve b because it was decoded from JSON naming b,      *)
+(*           from legacy JSON / Gob while b was the default, made by the      *)
+(*           constructor for b, marked with SetCurve(b), or because a decode  *)
+(*           naming b FAILED on it (which leaves curve and coordinates set)   *)
+(* What a door does must not depend on the pre-state (HistoryIndependent).    *)
+(* The wrong designs in which it does are part of the model (WrongDesigns):   *)
+(* TLC must refute each of them (WrongDesignsAreRefuted), which shows that    *)
+(* the pre-state dimension of the table is able to tell them apart.           *)
+(*                                                                            *)
 (* The model is a small state machine: the default curve can be switched      *)
-(* (tss.SetCurve), and any input can be presented at any door.  TLC explores  *)
-(* all (default curve, door, input) combinations, checks the design-level     *)
-(* statements below and prints every explored case with the expected verdict; *)
-(* the harness (harness/props/c17.go) builds concrete coordinate pairs for    *)
-(* each case with its own arithmetic, presents them at the real door and      *)
-(* compares accept / reject, the curve of the result and the re-encoding.     *)
+(* (tss.SetCurve), and any input can be presented at any door in any          *)
+(* pre-state.  TLC explores all (default curve, door, input, pre-state)       *)
+(* combinations, checks the design-level statements below and prints every    *)
+(* explored case with the expected verdict; the harness                       *)
+(* (harness/props/c17.go) builds concrete coordinate pairs for each case with *)
+(* its own arithmetic, brings the real door / target object into the          *)
+(* pre-state with real calls, presents the pair and compares accept / reject, *)
+(* the curve of the result and the re-encoding.                               *)
 (* No constants: the sets below are the model.                                *)
 EXTENDS Integers, Sequences, FiniteSets, TLC, Json
 
@@ -43,18 +70,29 @@ StatedBy ==
   @@ [ d \in {"ECPoint.UnmarshalJSON(no Curve member)", "ECPoint.GobDecode"} |-> "global" ]
 Doors == DOMAIN StatedBy
 
+(* doors that are methods of an ECPoint that exists before the call *)
+HasReceiver(d) == d \in {"ECPoint.UnmarshalJSON", "ECPoint.UnmarshalJSON(no Curve member)", "ECPoint.GobDecode"}
+
 (* Input classes.  Each is built from a point of the curve `base`.            *)
 OnCurveClasses  == {"generator", "random", "identity", "torsion", "mixed"}
 OffCurveClasses == {"perturbed_x", "perturbed_y", "swapped",
                     "ge_p_alias",      \* a coordinate c replaced by c + p (where that differs from the next class)
                     "ge_p_topbit",     \* c + 2^255 (edwards25519) / c + 2^256: beyond the field's bit length
-                    "ge_p_overlong"}   \* c * 2^8 + r: one byte longer than the field
+                    "ge_p_overlong",   \* c * 2^8 + r: one byte longer than the field
+                    "absent"}          \* a coordinate is missing (nil *big.Int, JSON null, short or missing Coords):
+                                       \* no pair at all - whatever the target held before must not fill the gap
 Classes == OnCurveClasses \cup OffCurveClasses
 
 (* classes that exist for a base curve: small-order and mixed-order points    *)
 (* need a cofactor; "identity" for secp256k1 is the conventional stand-in     *)
 (* (0,0), which is no point of either curve                                   *)
 Exists(base, class) == class \in {"torsion", "mixed"} => Cofactor(base) = 8
+
+(* a missing coordinate can be expressed where coordinates are *big.Int or    *)
+(* JSON values; byte fields and the Gob form always denote a number           *)
+Expressible(d, class) ==
+  class = "absent" => d \in {"crypto.NewECPoint", "crypto.UnFlattenECPoints",
+                             "ECPoint.UnmarshalJSON", "ECPoint.UnmarshalJSON(no Curve member)"}
 
 (* does the coordinate pair lie on curve c ?  A pair built from a point of    *)
 (* `base` lies on `base` iff it was left intact, and never on the other       *)
@@ -67,12 +105,49 @@ LiesOn(base, class, c) ==
 
 Inputs == { in \in [base : Curves, class : Classes, claim : Curves] : Exists(in.base, in.class) }
 
+(* Pre-states *)
+BindingWays == {"json", "legacy_json", "gob", "constructor", "setcurve", "failed_json"}
+LeavesAPoint(h) == h \in {"json", "legacy_json", "gob", "constructor"}   \* the target holds a valid point of its curve
+SeenWays == {"same_pair_other_curve", "intact_point_own_curve"}
+Fresh == [kind |-> "fresh", how |-> "-", curve |-> "-"]
+PreStates(d) ==
+  {Fresh}
+  \cup { [kind |-> "seen", how |-> h, curve |-> "-"] : h \in SeenWays }
+  \cup (IF HasReceiver(d) THEN { [kind |-> "reuse", how |-> h, curve |-> c] : h \in BindingWays, c \in Curves } ELSE {})
+  \* the list door: "before" can also be an earlier position of the same list (same call, same stated curve)
+  \cup (IF d = "crypto.UnFlattenECPoints" THEN { [kind |-> "seen", how |-> "intact_point_earlier_in_the_list", curve |-> "-"] } ELSE {})
+
+Cases == { c \in [door : Doors, in : Inputs] : Expressible(c.door, c.in.class) }
+
+(* Wrong designs (each one a plausible "convenience" or "optimisation"):      *)
+(*  sticky_target       : a decode without a curve name keeps the curve the   *)
+(*                        receiver is already bound to                        *)
+(*  memo_by_coordinates : the on-curve verdict is remembered per coordinate   *)
+(*                        pair, not per (curve, pair)                         *)
+(*  merge_coordinates   : a coordinate missing from the payload is taken from *)
+(*                        what the receiver held before                       *)
+WrongDesigns == {"sticky_target", "memo_by_coordinates", "merge_coordinates"}
+
+(* the curve the door is told to check against: never a matter of history *)
 Stated(d, in, g) == IF StatedBy[d] = "global" THEN g ELSE in.claim
 
-(* what a door does *)
-Decode(d, in, g) ==
-  LET st == Stated(d, in, g)
-  IN  [accept |-> LiesOn(in.base, in.class, st), curve |-> st]
+(* the curve a door of design W checks against *)
+CheckedW(d, in, g, pre, W) ==
+  IF StatedBy[d] = "global" /\ "sticky_target" \in W /\ pre.kind = "reuse" THEN pre.curve ELSE Stated(d, in, g)
+
+(* what a door of design W does; W = {} is the design the code is held to *)
+DecodeW(d, in, g, pre, W) ==
+  LET st == CheckedW(d, in, g, pre, W)
+      remembered ==
+        /\ "memo_by_coordinates" \in W /\ pre.kind = "seen"
+        /\ \/ pre.how = "same_pair_other_curve"  /\ LiesOn(in.base, in.class, Other(st))
+           \/ pre.how = "intact_point_own_curve" /\ LiesOn(in.base, in.class, in.base)
+      filled ==
+        /\ "merge_coordinates" \in W /\ pre.kind = "reuse" /\ LeavesAPoint(pre.how)
+        /\ in.class = "absent" /\ pre.curve = st
+  IN  [accept |-> LiesOn(in.base, in.class, st) \/ remembered \/ filled, curve |-> st]
+
+Decode(d, in, g, pre) == DecodeW(d, in, g, pre, {})
 
 (* what re-encoding an accepted point yields: the same coordinates, and the   *)
 (* curve only where the encoding has room for it                              *)
@@ -87,55 +162,80 @@ SetCurve(c) == global' = c /\ last' = <<>>
 
 (* doors keep no state, so one presentation per visit of a default curve is     *)
 (* enough: after it only SetCurve is enabled (keeps the state graph linear)    *)
-Present(d, in) ==
+Present(d, in, pre) ==
   /\ last = <<>>
-  /\ LET out == Decode(d, in, global)
+  /\ LET out == Decode(d, in, global, pre)
      IN last' = << [door |-> d, stated_by |-> StatedBy[d], base |-> in.base, class |-> in.class,
                     claim |-> in.claim, global |-> global, stated |-> out.curve,
+                    pre_kind |-> pre.kind, pre_how |-> pre.how, pre_curve |-> pre.curve,
                     wrong_curve |-> (in.base # out.curve),
                     expect |-> IF out.accept THEN "accept" ELSE "reject"] >>
   /\ UNCHANGED global
 
-Next == (\E c \in Curves : SetCurve(c)) \/ (\E d \in Doors, in \in Inputs : Present(d, in))
+Next == \/ \E c \in Curves : SetCurve(c)
+        \/ \E c \in Cases : \E pre \in PreStates(c.door) : Present(c.door, c.in, pre)
 Spec == Init /\ [][Next]_vars
 
 -----------------------------------------------------------------------------
-(* The statements quantify over all doors and inputs and depend on the state   *)
-(* only through the default curve: they are evaluated in the states where no   *)
-(* case is on display (last = <<>>), once per default curve.                   *)
+(* The statements quantify over all doors, inputs and pre-states and depend on *)
+(* the state only through the default curve: they are evaluated in the states  *)
+(* where no case is on display (last = <<>>), once per default curve.  Each is *)
+(* written for a design W so that the wrong designs can be refuted below.      *)
 TypeOK == global \in Curves /\ Len(last) <= 1
 
-(* nothing that is not a point of the stated curve gets in, through any door   *)
-NothingOffCurveGetsIn == last = <<>> =>
-  \A d \in Doors, in \in Inputs :
-     Decode(d, in, global).accept =>
-        /\ in.class \in OnCurveClasses
-        /\ in.base = Stated(d, in, global)
-        /\ Decode(d, in, global).curve = in.base
+(* nothing that is not a point of the stated curve gets in, through any door,  *)
+(* whatever happened before                                                    *)
+NothingOffCurveGetsInW(W, g) ==
+  \A c \in Cases : \A pre \in PreStates(c.door) :
+     LET out == DecodeW(c.door, c.in, g, pre, W)
+     IN  out.accept =>
+           /\ c.in.class \in OnCurveClasses
+           /\ c.in.base = Stated(c.door, c.in, g)
+           /\ out.curve = c.in.base
+NothingOffCurveGetsIn == last = <<>> => NothingOffCurveGetsInW({}, global)
 
 (* every intact point of a curve is accepted when that curve is the stated one *)
 (* (otherwise "reject everything" would satisfy the previous statement)        *)
-IntactPointsGetIn == last = <<>> =>
-  \A d \in Doors, in \in Inputs :
-     (in.class \in OnCurveClasses /\ (in.class = "identity" => HasAffineIdentity(in.base))
-        /\ Stated(d, in, global) = in.base) => Decode(d, in, global).accept
+IntactPointsGetInW(W, g) ==
+  \A c \in Cases : \A pre \in PreStates(c.door) :
+     (/\ c.in.class \in OnCurveClasses
+      /\ c.in.class = "identity" => HasAffineIdentity(c.in.base)
+      /\ Stated(c.door, c.in, g) = c.in.base) => DecodeW(c.door, c.in, g, pre, W).accept
+IntactPointsGetIn == last = <<>> => IntactPointsGetInW({}, global)
+
+(* doors keep no state: verdict and curve are those of a first use *)
+HistoryIndependentW(W, g) ==
+  \A c \in Cases : \A pre \in PreStates(c.door) :
+     DecodeW(c.door, c.in, g, pre, W) = DecodeW(c.door, c.in, g, Fresh, W)
+HistoryIndependent == last = <<>> => HistoryIndependentW({}, global)
 
 (* small-order points ARE points of edwards25519: the doors let them in, which *)
 (* is why the EdDSA rounds clear the cofactor afterwards (Points!CofactorMap)  *)
 SmallOrderPointsGetIn ==
-  \A d \in Doors : Decode(d, [base |-> "ed25519", class |-> "torsion", claim |-> "ed25519"], "ed25519").accept
+  \A d \in Doors : \A pre \in PreStates(d) :
+     Decode(d, [base |-> "ed25519", class |-> "torsion", claim |-> "ed25519"], "ed25519", pre).accept
 
 (* re-encoding what was decoded and decoding it again - at the same door, under *)
-(* any default curve - gives the same point on the same curve or is refused;    *)
-(* it is never re-interpreted on the other curve                                *)
+(* any default curve, into a new or a used object - gives the same point on the *)
+(* same curve or is refused; it is never re-interpreted on the other curve      *)
 RoundTrip == last = <<>> =>
-  \A d \in Doors, in \in Inputs :
-     LET out == Decode(d, in, global)
+  \A c \in Cases : \A pre \in PreStates(c.door) :
+     LET out == Decode(c.door, c.in, global, pre)
      IN  out.accept =>
-           \A g2 \in Curves :
-              LET back == Decode(d, Encode(d, in, out.curve), g2)
+           \A g2 \in Curves : \A pre2 \in PreStates(c.door) :
+              LET back == Decode(c.door, Encode(c.door, c.in, out.curve), g2, pre2)
               IN  /\ back.accept => back.curve = out.curve
-                  /\ (StatedBy[d] # "global" \/ g2 = global) => back.accept
+                  /\ (StatedBy[c.door] # "global" \/ g2 = global) => back.accept
+
+(* self-test of the table: each wrong design lets something in that does not   *)
+(* lie on the stated curve, and is history dependent; the sticky target also   *)
+(* refuses valid points of the stated curve (evaluated once, at start-up)      *)
+WrongDesignsAreRefuted ==
+  /\ \A w \in WrongDesigns : \E g \in Curves : ~NothingOffCurveGetsInW({w}, g)
+  /\ \A w \in WrongDesigns : \E g \in Curves : ~HistoryIndependentW({w}, g)
+  /\ \E g \in Curves : ~IntactPointsGetInW({"sticky_target"}, g)
+  /\ \A g \in Curves : NothingOffCurveGetsInW({}, g) /\ HistoryIndependentW({}, g) /\ IntactPointsGetInW({}, g)
+ASSUME WrongDesignsAreRefuted
 
 (* catalogue generation: one line per explored case (-workers 1) *)
 EmitRow == last # <<>> => PrintT(<<"ROW", ToJson(last[1])>>)
